@@ -164,18 +164,39 @@ Definition sudoku_check_io (l : list Z) : list Z :=
     b2z (Bool.eqb (is_puzzle_solved (board s)) (full_b (board s) && conflict_free_b (board s))) ].
 (* @export sudoku_check_io *)
 
+(* every action of the action space from one state, in row-major (r, c, d) order:
+   step_type, reward, number of True entries of the successor mask *)
+Definition count_mask (m : list (list (list bool))) : Z :=
+  zsum (map (fun row => zsum (map (fun cellm => zsum (map b2z cellm)) row)) m).
+Definition sudoku_allact_io (l : list Z) : list Z :=
+  let (s, _) := dec_state l in
+  concat (map (fun r => concat (map (fun c => concat (map (fun d =>
+    let (s', t) := step s r c d in [st t; hd 0 (reward t); count_mask (amask s')])
+    (zrange W))) (zrange W))) (zrange W)).
+(* @export sudoku_allact_io *)
+
+(* DatabaseGenerator over an explicit draw: the index sampled by jax.random.randint(0, len(database)) *)
+Definition valid_draw (db : list (list (list Z))) (idx : Z) : bool := (0 <=? idx) && (idx <? zlen db).
+Definition gen_db (db : list (list (list Z))) (idx : Z) : state * tstep := init (znth [] db idx).
+(* in: k, idx, k database entries -> valid_draw, reset state, timestep *)
+Definition sudoku_gen_io (l : list Z) : list Z :=
+  let (k, l) := take1 l in let (idx, l) := take1 l in
+  let (db, _) := dec_many (take_grid W W) (Z.to_nat k) l in
+  let (s, t) := gen_db db idx in b2z (valid_draw db idx) :: enc_state s ++ enc_ts t.
+(* @export sudoku_gen_io *)
+
 (* C10: k database entries (81 values each) -> number of entries that are NOT well-formed, then the index of
-   the first bad one (or -1), then the minimum number of empty cells over the batch *)
-Fixpoint puzzles_scan (k : nat) (i : Z) (l : list Z) (bad first minempty : Z) : list Z :=
+   the first bad one (or -1), then the minimum and the maximum number of empty cells over the batch *)
+Fixpoint puzzles_scan (k : nat) (i : Z) (l : list Z) (bad first minempty maxempty : Z) : list Z :=
   match k with
-  | O => [bad; first; minempty]
+  | O => [bad; first; minempty; maxempty]
   | S k' =>
       let (p, l') := take_grid W W l in
       let ok := puzzle_ok_b p in
       let e := empties (map (map (fun v => v - 1)) p) in
       puzzles_scan k' (i + 1) l' (if ok then bad else bad + 1)
-                   (if ok || (0 <=? first) then first else i) (Z.min minempty e)
+                   (if ok || (0 <=? first) then first else i) (Z.min minempty e) (Z.max maxempty e)
   end.
 Definition sudoku_puzzles_io (l : list Z) : list Z :=
-  let (k, l) := take1 l in puzzles_scan (Z.to_nat k) 0 l 0 (-1) 81.
+  let (k, l) := take1 l in puzzles_scan (Z.to_nat k) 0 l 0 (-1) 81 0.
 (* @export sudoku_puzzles_io *)
